@@ -57,4 +57,4 @@ LEVEL_TEXT = ('Bounded symbolic verification: the real ResidualGive/ResidualTake
 LEVEL_NOTE = ('exact real arithmetic (no rounding); shapes bounded as listed; sin/cos/exp/atan/tanh of symbolic arguments uninterpreted; '
               'trusted: clang 14 -O1 IR, llsym interpreter (checked per run by a bit-for-bit differential against a g++ -O2 build), z3')
 TECHNIQUE = 'symbolic execution of LLVM IR (llsym) + SMT (z3 QF_NRA, one query per obligation)'
-DESIGN_REF = 'DESIGN.md section 6/C03'
+DESIGN_REF = 'DESIGN.md section 0 (status as built: 0.2, 0.5, 0.6) and section 6/C03 (design)'
